@@ -6,5 +6,6 @@ export CARGO_NET_OFFLINE=true
 export RUSTFLAGS="--cfg solstat_verif"
 mkdir -p target evidence replays
 cargo build --release --offline --manifest-path harness/Cargo.toml --target-dir target
+cargo build --profile chk --offline --manifest-path harness/Cargo.toml --target-dir target
 cargo build --release --offline --manifest-path /repo/Cargo.toml --target-dir target --bin solstat
 echo setup ok
